@@ -1,5 +1,6 @@
 (* C08 - splitting a command string never fails and inverts shell-style quoting. *)
-From Clikit Require Import Base.Prelude Base.Res Model.Tokenizer Proofs.TokenizerLemmas.
+From Clikit Require Import Base.Prelude Base.Res Model.Conv Model.Format Model.Parser Model.Resolver Model.Run Model.Tokenizer Model.Switches
+  Proofs.TokenizerLemmas Proofs.RawArgsLemmas.
 
 (* For EVERY string, tokenising terminates (the fuel length+2 never runs out) and, since the
    repaired scanner has no failing branch left, returns a token list. *)
@@ -41,3 +42,19 @@ Example c08_roundtrip_instance :
 Proof. vm_compute. auto. Qed.
 Example c08_inexpressible : expressible [97; 92; 39]%N = false /\ expressible [97; 92]%N = false.
 Proof. vm_compute. auto. Qed.
+
+(* A command string and the argv list it spells are indistinguishable to parser, resolver and run: StringArgs(s) is
+   always defined, and whatever is observed of it (parse with any format and mode, resolve and run on any application)
+   is what is observed of ArgvArgs of the tokens. *)
+Theorem string_args_always_defined : forall s, exists o, string_args s = Some o.
+Proof. exact string_args_defined. Qed.
+Print Assumptions string_args_always_defined.
+Theorem string_and_argv_indistinguishable : forall s ts, tokenize s = TOk ts -> string_args s = Some (argv_args ts).
+Proof. exact string_is_argv. Qed.
+Print Assumptions string_and_argv_indistinguishable.
+(* in particular for every spelling of a token list (any per-token quote style, any white space between) *)
+Theorem every_spelling_is_the_argv_list : forall items trail,
+  items_ok items = true -> all_space trail = true -> seps_ok items = true ->
+  string_args (render items trail) = Some (argv_args (map it_tok items)).
+Proof. exact spelled_string_is_argv. Qed.
+Print Assumptions every_spelling_is_the_argv_list.
